@@ -85,6 +85,34 @@ CHECKS = {
         note="Simulation only so far; adoption from the order stream belongs to the E2 part.",
         section="6/C15",
     ),
+    "C09": dict(
+        engine="E1 simx",
+        technique="exhaustive scenario product executed as complete real simulated runs (order state at removal x other-runner orders x factor x timing x market type x second market), before/after comparison at every update",
+        text="Full product of 18 states of the order on the removed runner (pending, resting, partly/fully filled, partly/fully cancelled, FOK-killed, lapsed placement, cancel/update/replace in flight, "
+        "MOC persistence, LOC, MOC) x 8 sets of orders on the other runners x factors {None,0,2.49,2.5,20,99} x removal plain/before/after turn in-play x WIN/PLACE/OTHER_PLACE/EACH_WAY, plus a second "
+        "removal in the market and the same removal in a second market handled by the same framework instance sequentially and event-grouped; voiding, completion, price reduction, MOC liability scaling and "
+        "exactly-once application are compared update by update.",
+        note="Reduction threshold 2.5 applied to all market types as the code and statement do; Betfair's place-market threshold is not modelled.",
+        section="6/C09",
+    ),
+    "C06": dict(
+        engine="E1 simx",
+        technique="exhaustive product of resting-order configurations x traded-volume update sequences, each a complete real run, against an independent traded-volume ledger (lone-order formula, Hall's condition, priority, isolation differential)",
+        text="Side mode x queue at arrival {0,2,6} x every multiset of <=3 resting orders over 3 prices (1-2 strategies, late arrival) x every sequence of <=2 (thorough 3, partly 4) updates from 15-17 "
+        "options (one/two/three levels, unchanged ladder, decreasing cumulative volume) x isolation on/off. The ledger is rebuilt from the generated stream lines, so halving, write-back of consumed volume, "
+        "queue handling, sort order and per-strategy copies are all observable.",
+        note="One runner, sizes 5, prices 2.0-2.2; simulation_available_prices=False as the statement requires.",
+        section="6/C06",
+    ),
+    "C07": dict(
+        engine="E1 simx",
+        technique="exhaustive enumeration of update-spacing sequences around every latency boundary x request kind x latency/bet-delay configuration, each a complete real run; effect update compared with the reference rule, book identified by alternating liquidity",
+        text="Every spacing sequence of <=3 (thorough 4, 5 for place/replace) updates over 14 gaps from 1 ms to 5 s incl. each default latency +-1 ms x {place, cancel, update, replace, place+cancel}, "
+        "latency configs zero/large, bet delays 0/1/5 changing at a turn in-play between request and effect, and an event-grouped second market updating in between; checks the effect update, the book used "
+        "(fragment stamp of the alternating-liquidity book), pending/in-flight behaviour against an undisturbed twin run, all timestamps and the clock seen by callbacks.",
+        note="One request instant per run (at update 1); spacing values outside the menu are not covered.",
+        section="6/C07",
+    ),
 }
 
 PENDING_REASON = "check not built yet in this session (work in progress; see DESIGN.md section 8 for the order of work)"
